@@ -78,6 +78,7 @@ type succ struct {
 	Herr string `json:"herr,omitempty"`
 	Term bool   `json:"term,omitempty"` // terminal: judged, but not explored further
 	Shape string `json:"shape,omitempty"` // coarse structural class of the successor state (evidence: non-vacuity)
+	Inner int    `json:"inner,omitempty"` // evaluations made inside the state oracle (e.g. injected fault sets)
 }
 
 // TaskResult is what a generic (non-BFS) task returns.
@@ -144,6 +145,7 @@ func expandState(sp Space, path []Op, wantInit bool, noTrace bool) workResp {
 		s.Key, err = stepAndCheck(sp, w, op, noTrace, parentTxt)
 		s.Term = w.FormerOnly != nil
 		s.Shape = w.lastShape
+		s.Inner = w.InnerEvals
 		if err != nil {
 			if v, ok := err.(*Violation); ok {
 				s.Viol = v.Msg
@@ -296,12 +298,16 @@ type Stats struct {
 	Deepest     []Op
 	Shapes      map[string]int // states per coarse structural class
 	Wall        float64
+	Inner       int // evaluations made inside state oracles, all transitions
+	InnerNew    int // … on transitions that discovered a new canonical state
 }
 
 func (s *Stats) Add(o Stats) {
 	s.States += o.States
 	s.Transitions += o.Transitions
 	s.OpsRun += o.OpsRun
+	s.Inner += o.Inner
+	s.InnerNew += o.InnerNew
 	if o.MaxDepth > s.MaxDepth {
 		s.MaxDepth = o.MaxDepth
 	}
@@ -420,6 +426,7 @@ func Explore(pool *Pool, spec Spec, deadline time.Time, maxViol int) (Stats, []F
 			st.OpsRun += r.resp.OpsRun
 			for _, s := range r.resp.Succs {
 				st.Transitions++
+				st.Inner += s.Inner
 				p := append(append([]Op{}, r.it.path...), s.Op)
 				if s.Herr != "" {
 					herr = fmt.Errorf("harness error at [%s]: %s", OpsString(p), s.Herr)
@@ -437,6 +444,7 @@ func Explore(pool *Pool, spec Spec, deadline time.Time, maxViol int) (Stats, []F
 					// not know about (e.g. something a changed library captures in a closure)
 					seen[s.Key] = true
 					st.States++
+					st.InnerNew += s.Inner
 					if st.Shapes == nil {
 						st.Shapes = map[string]int{}
 					}
